@@ -530,7 +530,10 @@ func (pool *hostConnPool) fillingStopped(err error) {
 	}
 	if err != nil && count == 0 {
 		if pool.session.cfg.ConvictionPolicy.AddFailure(err, host) {
-			pool.session.handleNodeDown(host.ConnectAddress(), port)
+			// the ring files hosts under their node-to-node address, which is what
+			// handleNodeDown looks up; it differs from the connect address when
+			// rpc_address and peer/broadcast_address differ
+			pool.session.handleNodeDown(host.nodeToNodeAddress(), port)
 		}
 	}
 }
